@@ -74,9 +74,38 @@ template <class T> static void behaves_like(T &obj, const char *cls, const char 
     hx_stat("nontrivial", 1);
 }
 
+/* set_key is documented to leave the nonce as-is: a nonce (or counter) set BEFORE keying must still be the one used afterwards, and the first
+ * packet after keying must equal the C function under that nonce (the next one under nonce+1) */
+template <class T, class F> static void keeps_nonce(T &o, const char *cls, const char *path, int fam, int alg, const unsigned char *key, F keying)
+{
+    char kb[96]; snprintf(kb, sizeof kb, "cpp:%s:%s:nonce-kept", cls, path);
+    unsigned char n2[16], exp[64], out[64];
+    for (int variant = 0; variant < 3; variant++) {
+        for (int i = 0; i < 16; i++) n2[i] = (unsigned char)(0xC1 + 7 * i + variant);
+        if (variant == 1) { memset(n2, 0, 16); n2[8] = 0x80; n2[15] = 0xff; o.set_counter(0x80000000000000ffULL); }
+        else if (variant == 2) { memset(n2, 0, 16); memcpy(n2 + 11, NONCE, 5); o.set_nonce(NONCE, 5); }
+        else o.set_nonce(n2, 16);
+        if (!keying(o)) { hx_fail(kb, "keying returned false"); return; }
+        c_encrypt(fam, alg, key, n2, ADB, 7, MSG, 21, exp); hx_stat("evaluations", 2);
+        int r = o.encrypt(out, MSG, 21, ADB, 7);
+        if (r != 37 || memcmp(out, exp, 37)) { hx_fail(kb, "first packet after keying differs from the C function under the nonce set before keying (variant %d)", variant); return; }
+        for (int i = 15; i >= 0; i--) if (++n2[i]) break;
+        c_encrypt(fam, alg, key, n2, 0, 0, MSG, 5, exp);
+        r = o.encrypt(out, MSG, 5, 0, 0);
+        if (r != 21 || memcmp(out, exp, 21)) { hx_fail(kb, "second packet after keying differs from the C function under nonce+1 (variant %d)", variant); return; }
+    }
+    hx_stat("nontrivial", 1);
+}
+
 template <class T> static void cipher_suite(const char *cls, int fam, int alg)
 {
     size_t kl = fam == 3 ? (size_t)ref_isap_keylen(alg) : (size_t)ref_keylen(alg);
+    { T o; keeps_nonce(o, cls, "set_key-full", fam, alg, K, [&](T &x) { return x.set_key(K, kl); });
+      keeps_nonce(o, cls, "set_key-null-0-after-full", fam, alg, ZK, [&](T &x) { return x.set_key(0, 0); });
+      keeps_nonce(o, cls, "set_key-second-key", fam, alg, K2, [&](T &x) { return x.set_key(K2, kl); });
+      keeps_nonce(o, cls, "set_key-nonnull-0-after-full", fam, alg, ZK, [&](T &x) { return x.set_key(K, 0); }); }
+    { T o; keeps_nonce(o, cls, "set_key-null-0", fam, alg, ZK, [&](T &x) { return x.set_key(0, 0); }); }
+    { T o; keeps_nonce(o, cls, "set_key-nonnull-0", fam, alg, ZK, [&](T &x) { return x.set_key(K, 0); }); }
     char kb[96]; snprintf(kb, sizeof kb, "cpp:%s", cls);
     { T o; if (o.key_size() != kl || o.tag_size() != 16 || o.nonce_size() != 16) hx_fail(kb, "key_size/tag_size/nonce_size = %zu/%zu/%zu", o.key_size(), o.tag_size(), o.nonce_size());
       behaves_like(o, cls, "default-constructor", fam, alg, ZK);
@@ -101,7 +130,7 @@ template <class T> static void cipher_suite(const char *cls, int fam, int alg)
       } hx_stat("evaluations", 9); }
 }
 template <class T> static void key_ctor(const char *cls, int fam, int alg) { T o(K); behaves_like(o, cls, "key-constructor", fam, alg, K); T z(0); behaves_like(z, cls, "key-constructor-null", fam, alg, ZK); }
-template <class T> static void masked_extra(const char *cls, int alg) { T o(K); o.randomize_key(); behaves_like(o, cls, "key-constructor+randomize_key", 1, alg, K); o.randomize_key(); o.randomize_key(); behaves_like(o, cls, "randomize_key-x3", 1, alg, K); }
+template <class T> static void masked_extra(const char *cls, int alg) { { T q(K); keeps_nonce(q, cls, "randomize_key", 1, alg, K, [&](T &x) { x.randomize_key(); return true; }); } T o(K); o.randomize_key(); behaves_like(o, cls, "key-constructor+randomize_key", 1, alg, K); o.randomize_key(); o.randomize_key(); behaves_like(o, cls, "randomize_key-x3", 1, alg, K); }
 template <class T> static void isap_extra(const char *cls, int alg)
 {
     size_t kl = (size_t)ref_isap_keylen(alg); char kb[96]; snprintf(kb, sizeof kb, "cpp:%s", cls);
@@ -110,6 +139,7 @@ template <class T> static void isap_extra(const char *cls, int alg)
     { T o(0, 0); behaves_like(o, cls, "key-constructor-null-0", 3, alg, ZK); }
     { T o(K, 0); behaves_like(o, cls, "key-constructor-nonnull-0", 3, alg, ZK); }
     { T o(cblob, 80); behaves_like(o, cls, "saved-key-constructor", 3, alg, K); }
+    { T q; keeps_nonce(q, cls, "set_key-saved", 3, alg, K, [&](T &x) { return x.set_key(cblob, 80); }); }
     { T o; if (!o.set_key(cblob, 80)) hx_fail(kb, "set_key(saved key, 80) returned false"); behaves_like(o, cls, "set_key-saved", 3, alg, K); memset(blob, 0, 80); o.save_key(blob); if (memcmp(blob, cblob, 80)) hx_fail(kb, "save_key after loading a saved key differs"); }
 }
 
